@@ -39,6 +39,11 @@ var _ logiter = (*streamIter)(nil)
 
 // Next returns true, if there is element and fills t.
 func (i *streamIter) Next(r *logstorage.Record) (ok bool) {
+	// Do not read past a failure: the error must not be lost, if iterator is polled again.
+	if i.err != nil {
+		return false
+	}
+
 	// Reset record.
 	*r = logstorage.Record{
 		Attrs:         otelstorage.Attrs(pcommon.NewMap()),
